@@ -535,6 +535,10 @@ func smbRt(a []string) string {
 	}
 	after := fieldTokens(c, g)
 	d := newCmd(a[0])
+	if a[1] != env0Of(a[0]) {
+		// a receiver that is not fresh: it holds the field values (and AndX block) of an earlier message
+		setEnv(d, a[1])
+	}
 	if _, err := d.Unmarshal(b); err != nil {
 		return "err-decode"
 	}
